@@ -1,6 +1,8 @@
 package main
 
 import (
+	"runtime/debug"
+	"os"
 	"fmt"
 	"go/token"
 	"go/types"
@@ -30,6 +32,7 @@ type Verifier struct {
 	sharedMaps     map[string]bool
 	labelSiteTypes map[string]types.Type
 	effMemo        map[*ssa.Function]map[string]bool
+	syncMapSwept   bool
 }
 
 func NewVerifier(p *Program, c *Contracts) *Verifier {
@@ -44,31 +47,68 @@ func (v *Verifier) namedByName(n string) *types.Named {
 	if len(parts) != 2 {
 		return nil
 	}
-	var pk *types.Package
-	if p, ok := v.P.TPkgs[parts[0]]; ok {
-		pk = p
-	} else {
+	lookup := func(pk *types.Package) *types.Named {
+		if pk == nil {
+			return nil
+		}
+		o := pk.Scope().Lookup(parts[1])
+		if o == nil {
+			return nil
+		}
+		nt, _ := types.Unalias(o.Type()).(*types.Named)
+		return nt
+	}
+	nt := lookup(v.P.TPkgs[parts[0]])
+	if nt == nil {
 		for _, sp := range v.P.Prog.AllPackages() {
 			if sp.Pkg.Name() == parts[0] {
-				pk = sp.Pkg
+				if nt = lookup(sp.Pkg); nt != nil {
+					break
+				}
+			}
+		}
+	}
+	if nt == nil {
+		// a dependency that is only type-checked (or a repo package shadowing its name, e.g. pubsub/sync vs sync):
+		// search the import graph of the repo packages
+		seen := map[*types.Package]bool{}
+		var find func(p *types.Package) *types.Named
+		find = func(p *types.Package) *types.Named {
+			if seen[p] {
+				return nil
+			}
+			seen[p] = true
+			if p.Name() == parts[0] {
+				if r := lookup(p); r != nil {
+					return r
+				}
+			}
+			for _, im := range p.Imports() {
+				if r := find(im); r != nil {
+					return r
+				}
+			}
+			return nil
+		}
+		var names []string
+		for k := range v.P.TPkgs {
+			names = append(names, k)
+		}
+		sort.Strings(names)
+		for _, k := range names {
+			if nt = find(v.P.TPkgs[k]); nt != nil {
 				break
 			}
 		}
 	}
-	if pk == nil {
-		return nil
+	if nt != nil {
+		v.named[n] = nt
 	}
-	o := pk.Scope().Lookup(parts[1])
-	if o == nil {
-		return nil
-	}
-	nt, _ := types.Unalias(o.Type()).(*types.Named)
-	v.named[n] = nt
 	return nt
 }
 
 func (v *Verifier) isShared(f string) bool {
-	if f == "G$closed" || f == "G$clen" || f == "G$wg" || f == "G$ccap" {
+	if f == "G$closed" || f == "G$clen" || f == "G$wg" || f == "G$ccap" || f == "G$smhas" || f == "G$smval" {
 		return true
 	}
 	if strings.HasPrefix(f, "M$") {
@@ -139,6 +179,51 @@ func (v *Verifier) entryBases(tc *TypeContract, m *Monitor) []*Term {
 		}
 	}
 	return out
+}
+
+// underContract: the function (or the function a closure is nested in) has a contract.
+func (v *Verifier) underContract(key string) bool {
+	for {
+		if _, ok := v.C.Funcs[key]; ok {
+			return true
+		}
+		i := strings.LastIndex(key, "$")
+		if i < 0 {
+			return false
+		}
+		key = key[:i]
+	}
+}
+
+// syncMapSweep: the sync.Map model assumes entries are only added. Any other mutator called from a package
+// under contract invalidates it (reported as unsupported, i.e. undecided).
+func (v *Verifier) syncMapSweep() {
+	if v.syncMapSwept {
+		return
+	}
+	v.syncMapSwept = true
+	bad := map[string]bool{"Store": true, "Delete": true, "Swap": true, "CompareAndSwap": true, "CompareAndDelete": true, "LoadAndDelete": true, "Clear": true}
+	for fn := range v.P.All {
+		for _, b := range fn.Blocks {
+			for _, in := range b.Instrs {
+				var c *ssa.CallCommon
+				switch i := in.(type) {
+				case *ssa.Call:
+					c = &i.Call
+				case *ssa.Defer:
+					c = &i.Call
+				case *ssa.Go:
+					c = &i.Call
+				}
+				if c == nil || c.IsInvoke() {
+					continue
+				}
+				if cf := c.StaticCallee(); cf != nil && cf.Signature.Recv() != nil && bad[cf.Name()] && strings.HasPrefix(cf.String(), "(*sync.Map).") {
+					unsupportedf("sync.Map model: %s calls %s (entries would no longer be add-only)", fn, cf)
+				}
+			}
+		}
+	}
 }
 
 // stableWg: wait groups declared stable by the function contract (ghost stable-wg EXPR).
@@ -409,11 +494,15 @@ func (v *Verifier) VerifyFunc(key string) (res *FuncResult) {
 	}
 	x := &Exec{V: v, Fn: fn, FC: fc, MaxPaths: 4000, cellOf: map[*ssa.Alloc]*Cell{}, Notes: map[string]bool{}, iterIDs: map[*ssa.Range]int{}, calleeTypes: map[string]types.Type{}, chanKeys: map[string]string{}}
 	v.curExec = x
+	objInvHook = x.assumeObjInvs
 	v.entryHeld = map[string]bool{}
 	v.entryHeldList = nil
 	defer func() {
 		if r := recover(); r != nil {
 			if u, ok := r.(unsupported); ok {
+				if os.Getenv("GOWP_STACK") != "" {
+					fmt.Fprintf(os.Stderr, "unsupported: %s\n%s\n", u.msg, debug.Stack())
+				}
 				res.Unsupported = u.msg
 				res.Obls = x.Obls
 				res.Paths = x.Paths
